@@ -412,12 +412,12 @@ def configs(tier):
             if useful(full):
                 seqs.append(full)
         # several meshes in one history: macro-operations S (solve+save), N (replace mesh+solve+save), restores of the first / last / middle iteration
-        macro = ["N", "set_iter:first", "set_iter:last"] if tier == "quick" else ["S", "N", "set_iter:first", "set_iter:last", "set_iter:mid", "folder:A"]
-        lens = (5,) if tier == "quick" else (4, 5, 6)
+        macro = ["S", "N", "set_iter:first", "set_iter:last"] if tier == "quick" else ["S", "N", "set_iter:first", "set_iter:last", "set_iter:mid", "folder:A"]
+        lens = (4, 5) if tier == "quick" else (4, 5, 6)
         if sim == "elastic_static" or tier == "thorough":
             for n in lens:
                 for seq in itertools.product(macro, repeat=n):
-                    if seq.count("N") < 2 or any(a == b and a != "N" and a != "S" for a, b in zip(seq, seq[1:])):
+                    if seq.count("N") < (1 if tier == "quick" else 2) or any(a == b and a != "N" and a != "S" for a, b in zip(seq, seq[1:])):
                         continue
                     if tier == "thorough" and n == 6 and sim != "elastic_static" and rng.random() > 0.2:
                         continue
